@@ -280,12 +280,13 @@ PROPS = {
         },
     },
     "C08": {
-        "engine": "wire",
-        "instrument": WIRE_INSTRUMENT,
-        "cfgs": [""],
+        "parts": [
+            {"engine": "wire", "instrument": WIRE_INSTRUMENT, "cfgs": [""], "modreplace": WIRE_MODREPLACE, "share": 3, "chunk": 150},
+            # The whole handler stack behind a real plain-DNS server: what the middlewares hand to the response writer.
+            {"engine": "sysim", "cfgs": ["servers"], "share": 1, "chunk": 300, "det_trace": False},
+        ],
         "det_runs": 12,
         "det_trace": False,
-        "modreplace": WIRE_MODREPLACE,
         "quick": {"seconds": 60, "chunk": 150, "runs": 4000, "chunk_ms": 40000, "kill_after": 300},
         "thorough": {"seconds": 1200, "chunk": 400, "kill_after": 600},
         "rule": ("one run = servers with a tape-chosen configured UDP maximum (0, 512, 1232, 4096, 65535) and 2-8 queries whose "
